@@ -203,9 +203,9 @@ pub(crate) mod k {
         kani::cover!(true);
         let (fx, fy) = (dx as f32, dy as f32 * 2.0);
         let a2 = Line::new_noswap(Point::new(a.start.x + fx, a.start.y + fy), Point::new(a.end.x + fx, a.end.y + fy), a.is_broken);
-        // numerator and denominator are exact differences, hence identical after translation
-        assert!(2.0 * a.end.y - 2.0 * a.start.y == 2.0 * a2.end.y - 2.0 * a2.start.y, "numerator");
-        assert!(a.end.x - a.start.x == a2.end.x - a2.start.x, "denominator");
+        // the real function: numerator and denominator are exact differences on the lattice, hence the
+        // quotient is bit-identical after translation
+        assert!(a.slope().to_bits() == a2.slope().to_bits(), "slope is translation invariant");
     }
 
     /// C01: `heading` is total - for every f32 that `atan` may return (incl. NaN/inf) `line_angle`
